@@ -100,7 +100,7 @@ def main():
         "engines": [{"name": "seqverif", "path": "/verif/checker", "serves_properties": sorted(CLAIMED),
                      "kind_free_text": "repository-specific static analyser over go/packages + go/ssa (dominance, provenance, lockset, codec-signature, enum-coverage, file-set typestate rules)"}],
         "checks": checks,
-        "notes": "Tiers: quick = all obligations of the property on the current tree; thorough = quick + the same obligations on the CGO_ENABLED=0 build configuration + positive controls (every confirmed seeded change of the property under /verif/seeded is applied as an in-memory overlay and must be reported). All claims are level 'other': structural necessary conditions decided on every path by static analysis; behaviours over runtime values are not decided (DESIGN.md §5).",
+        "notes": "Tiers: quick = all obligations of the property on the current tree; thorough = quick + the same obligations on the CGO_ENABLED=0 build configuration + positive controls (every confirmed seeded change of the property under /verif/seeded is applied as an in-memory overlay and must be reported) + negative controls (every behaviour-preserving refactoring under /verif/refactors that touches a file the property has sites in is applied the same way and must add no report). All claims are level 'other': structural necessary conditions decided on every path by static analysis; behaviours over runtime values are not decided (DESIGN.md §5).",
         "not_applicable": na,
     }
     json.dump(m, open(os.path.join(here, "MANIFEST.json"), "w"), indent=1)
